@@ -269,6 +269,8 @@ class Sym(object):
             return int(self.t.args[0])
         if self.t.sort == tm.B:
             raise TypeError('a boolean condition is not an index')
+        if self.t.sort == tm.R:
+            raise TypeError("'float' object cannot be interpreted as an integer")
         raise LeftFragment('symbolic value used as an index: %r' % self)
 
     def __int__(self):
